@@ -27,6 +27,32 @@ def V(x):
     return True if x else False
 
 
+# ----------------------------------------------------------------------------- CrossHair work-around
+def _fix_crosshair_map_ror():
+    """crosshair-tool 0.0.110, simplestructs.MapBase: `__ror__ = __or__`, i.e. `real_dict | crosshair_map` is computed as
+    `crosshair_map | real_dict` - the LEFT operand's values win, the opposite of dict union.  (`dict(x)` under tracing yields
+    such a map.)  Found when a seeded change that swapped the operands of a dict union went unnoticed (C06-3).  Install the
+    correct reversed union."""
+    try:
+        from collections.abc import Mapping
+        from crosshair import simplestructs
+    except Exception:  # pragma: no cover
+        return
+
+    def __ror__(self, other):
+        if not isinstance(other, Mapping):
+            return NotImplemented
+        union_map = self.copy()
+        union_map.clear()
+        union_map.update(other)
+        union_map.update(self)
+        return union_map
+    simplestructs.MapBase.__ror__ = __ror__
+
+
+_fix_crosshair_map_ror()
+
+
 # ----------------------------------------------------------------------------- loggers
 class NullLogger:
     """logrus.Logger replacement: logging reads time.time(), which CrossHair models as an unbounded
